@@ -122,53 +122,29 @@ Qed.
 
 (** * QueueReader, pure functions *)
 
-Lemma min_queue_size_no_panic : forall proto streams queues acc,
-  Forall bsr_ok streams -> min_queue_size proto streams queues acc <> Panic.
-Proof.
-  induction proto as [|t pr' IH]; intros streams queues acc Hs; [cbn; congruence|].
-  destruct streams as [|s sr]; [cbn; congruence|].
-  destruct queues as [|q qr']; [cbn; congruence|].
-  inversion Hs as [|? ? Hs1 Hs2]; subst.
-  cbn [min_queue_size]. cbv zeta.
-  destruct (bit_size t =? 0); [apply IH; exact Hs2|].
-  rewrite (bsr_available_ok s Hs1). apply IH; exact Hs2.
-Qed.
-
-(** one attribute of [parse_streams] *)
-Definition parse_one (t : dtype) (s : bsr) (q : list rvalue) (mqs : N) : res (bsr * list rvalue) :=
-  match t with
-  | TSingle | TDouble => res_map (fun '(s', vs) => (s', q ++ vs)) (unpack_type t s)
-  | TScaled mn mx =>
-      if bit_size t =? 0 then Ok (s, q ++ repeat (VScaled mn) (N.to_nat (mqs - len q)))
-      else res_map (fun '(s', vs) => (s', q ++ vs)) (unpack_type t s)
-  | TInteger mn mx =>
-      if bit_size t =? 0 then Ok (s, q ++ repeat (VInteger mn) (N.to_nat (mqs - len q)))
-      else res_map (fun '(s', vs) => (s', q ++ vs)) (unpack_type t s)
-  end.
+(** one attribute of [parse_streams]: records of zero bit size are skipped *)
+Definition parse_one (t : dtype) (s : bsr) (q : list rvalue) : res (bsr * list rvalue) :=
+  if bit_size t =? 0 then Ok (s, q)
+  else res_map (fun '(s', vs) => (s', q ++ vs)) (unpack_type t s).
 
 Lemma res_map_bsr_ok (q : list rvalue) (r : res (bsr * list rvalue)) :
   rpost (fun p => bsr_ok (fst p)) r ->
   rpost (fun p => bsr_ok (fst p)) (res_map (fun '(s', vs) => (s', q ++ vs)) r).
 Proof. destruct r as [[s' vs]|k|]; cbn; auto. Qed.
 
-Lemma parse_one_ok t s q mqs : dtype_ok t -> bsr_ok s ->
-  rpost (fun p => bsr_ok (fst p)) (parse_one t s q mqs).
+Lemma parse_one_ok t s q : dtype_ok t -> bsr_ok s ->
+  rpost (fun p => bsr_ok (fst p)) (parse_one t s q).
 Proof.
   intros Ht Hs. unfold parse_one.
-  destruct t as [| |mn mx|mn mx].
-  - apply res_map_bsr_ok. apply unpack_type_ok; [exact Ht|cbn; lia|exact Hs].
-  - apply res_map_bsr_ok. apply unpack_type_ok; [exact Ht|cbn; lia|exact Hs].
-  - destruct (bit_size (TScaled mn mx) =? 0) eqn:E; [exact Hs|].
-    apply res_map_bsr_ok. apply unpack_type_ok; [exact Ht|lia|exact Hs].
-  - destruct (bit_size (TInteger mn mx) =? 0) eqn:E; [exact Hs|].
-    apply res_map_bsr_ok. apply unpack_type_ok; [exact Ht|lia|exact Hs].
+  destruct (bit_size t =? 0) eqn:E; [exact Hs|].
+  apply res_map_bsr_ok. apply unpack_type_ok; [exact Ht|lia|exact Hs].
 Qed.
 
-Lemma parse_streams_cons t pr' s sr q qr' mqs :
-  parse_streams (t :: pr') (s :: sr) (q :: qr') mqs =
-  match parse_one t s q mqs with
+Lemma parse_streams_cons t pr' s sr q qr' :
+  parse_streams (t :: pr') (s :: sr) (q :: qr') =
+  match parse_one t s q with
   | Ok (s', q') =>
-      match parse_streams pr' sr qr' mqs with
+      match parse_streams pr' sr qr' with
       | Ok (ss, qs) => Ok (s' :: ss, q' :: qs)
       | Err k => Err k
       | Panic => Panic
@@ -176,32 +152,69 @@ Lemma parse_streams_cons t pr' s sr q qr' mqs :
   | Err k => Err k
   | Panic => Panic
   end.
-Proof. destruct t; reflexivity. Qed.
+Proof. reflexivity. Qed.
 
-Lemma parse_streams_ok : forall proto streams queues mqs,
+Lemma parse_streams_ok : forall proto streams queues,
   Forall dtype_ok proto -> Forall bsr_ok streams ->
   length streams = length proto -> length queues = length proto ->
   rpost (fun p => Forall bsr_ok (fst p) /\ length (fst p) = length proto /\ length (snd p) = length proto)
-        (parse_streams proto streams queues mqs).
+        (parse_streams proto streams queues).
 Proof.
-  induction proto as [|t pr' IH]; intros streams queues mqs Hp Hs Hl1 Hl2.
+  induction proto as [|t pr' IH]; intros streams queues Hp Hs Hl1 Hl2.
   - cbn. auto.
   - destruct streams as [|s sr]; [discriminate|]. destruct queues as [|q qr']; [discriminate|].
     inversion Hp as [|? ? Hp1 Hp2]; subst. inversion Hs as [|? ? Hs1 Hs2]; subst.
     cbn [length] in Hl1, Hl2. injection Hl1 as Hl1. injection Hl2 as Hl2.
     rewrite parse_streams_cons.
-    pose proof (parse_one_ok t s q mqs Hp1 Hs1) as H1.
-    destruct (parse_one t s q mqs) as [[s' q']|k|]; cbn [rpost fst] in H1; [|exact I|contradiction].
-    specialize (IH sr qr' mqs Hp2 Hs2 Hl1 Hl2).
-    destruct (parse_streams pr' sr qr' mqs) as [[ss qs]|k|]; cbn [rpost fst snd] in *; [|exact I|contradiction].
+    pose proof (parse_one_ok t s q Hp1 Hs1) as H1.
+    destruct (parse_one t s q) as [[s' q']|k|]; cbn [rpost fst] in H1; [|exact I|contradiction].
+    specialize (IH sr qr' Hp2 Hs2 Hl1 Hl2).
+    destruct (parse_streams pr' sr qr') as [[ss qs]|k|]; cbn [rpost fst snd] in *; [|exact I|contradiction].
     destruct IH as (A1 & A2 & A3). cbn [length]. repeat split; [constructor; assumption|congruence|congruence].
 Qed.
 
-Lemma pop_fronts_ok : forall qs,
-  rpost (fun p => length (snd p) = length qs) (pop_fronts qs).
+(** one attribute of [pop_fronts] *)
+Definition pop_one (t : dtype) (q : list rvalue) : res (rvalue * list rvalue) :=
+  match t, bit_size t =? 0 with
+  | TInteger mn _, true => Ok (VInteger mn, q)
+  | TScaled mn _, true => Ok (VScaled mn, q)
+  | _, _ => match q with
+            | [] => Err EInternal
+            | v :: q' => Ok (v, q')
+            end
+  end.
+
+Lemma pop_one_no_panic t q : pop_one t q <> Panic.
 Proof.
-  induction qs as [|q r IH]; [reflexivity|].
-  destruct q as [|v q]; [exact I|].
-  cbn [pop_fronts]. destruct (pop_fronts r) as [[vs r']|k|]; cbn [rpost snd] in *; [|exact I|contradiction].
-  cbn [length]. congruence.
+  unfold pop_one. destruct t as [| |mn mx|mn mx];
+    try (destruct (bit_size (TScaled mn mx) =? 0)); try (destruct (bit_size (TInteger mn mx) =? 0));
+    try (destruct (bit_size TSingle =? 0)); try (destruct (bit_size TDouble =? 0)); destruct q; congruence.
+Qed.
+
+Lemma pop_fronts_cons t pr' q r :
+  pop_fronts (t :: pr') (q :: r) =
+  match pop_one t q with
+  | Ok (v, q') =>
+      match pop_fronts pr' r with
+      | Ok (vs, r') => Ok (v :: vs, q' :: r')
+      | Err k => Err k
+      | Panic => Panic
+      end
+  | Err k => Err k
+  | Panic => Panic
+  end.
+Proof. reflexivity. Qed.
+
+Lemma pop_fronts_ok : forall proto qs, length qs = length proto ->
+  rpost (fun p => length (snd p) = length qs) (pop_fronts proto qs).
+Proof.
+  induction proto as [|t pr' IH]; intros qs Hl.
+  - destruct qs; [reflexivity|discriminate].
+  - destruct qs as [|q r]; [discriminate|]. cbn [length] in Hl. injection Hl as Hl.
+    rewrite pop_fronts_cons.
+    pose proof (pop_one_no_panic t q) as Hn.
+    destruct (pop_one t q) as [[v q']|k|]; [|exact I|congruence].
+    specialize (IH r Hl).
+    destruct (pop_fronts pr' r) as [[vs r']|k|]; cbn [rpost snd] in *; [|exact I|contradiction].
+    cbn [length]. congruence.
 Qed.
